@@ -9,22 +9,105 @@ package ech
 // config.go
 // ---------------------------------------------------------------------------
 
+// ECHConfig layout (draft-ietf-tls-esni section 4) as functions of the encoded bytes b:
+//   0 version(2) | 2 length(2) | 4 config_id(1) | 5 kem_id(2) | 7 public_key<u16> | cipher_suites<u16>, 4 bytes each |
+//   maximum_name_length(1) | public_name<u8> | extensions<u16>
+//@ pure cfgBodyLen(b []byte) int = be16(b, 2)
+//@ pure cfgPkLen(b []byte) int = be16(b, 7)
+//@ pure cfgCsOff(b []byte) int = 9 + cfgPkLen(b)
+//@ pure cfgCsLen(b []byte) int = be16(b, cfgCsOff(b))
+//@ pure cfgMnlOff(b []byte) int = cfgCsOff(b) + 2 + cfgCsLen(b)
+//@ pure cfgPnLen(b []byte) int = int(b[cfgMnlOff(b) + 1])
+//@ pure cfgPnOff(b []byte) int = cfgMnlOff(b) + 2
+// cfgValid: b starts with a structurally valid ECHConfig, every declared length fitting inside the enclosing one.
+//@ pure cfgValid(b []byte) bool = len(b) >= 4 && be16(b, 0) == 0xfe0d && len(b) >= 4 + cfgBodyLen(b) &&
+//@     cfgBodyLen(b) >= 5 + cfgPkLen(b) + 2 && cfgBodyLen(b) >= 5 + cfgPkLen(b) + 2 + cfgCsLen(b) + 2 && cfgCsLen(b) % 4 == 0 &&
+//@     cfgBodyLen(b) >= 5 + cfgPkLen(b) + 2 + cfgCsLen(b) + 2 + cfgPnLen(b)
+// cfgFields: the ConfigSpec o holds exactly the fields encoded in b.
+//@ pure cfgFields(o ConfigSpec, b []byte) bool = int(o.Version) == 0xfe0d && int(o.ID) == int(b[4]) && int(o.KEM) == be16(b, 5) &&
+//@     bytesEq(o.PublicKey, window(b, 9, cfgPkLen(b))) && 4*len(o.CipherSuites) == cfgCsLen(b) &&
+//@     forall(j, 0, len(o.CipherSuites), int(o.CipherSuites[j].KDF) == be16(b, cfgCsOff(b) + 2 + 4*j) && int(o.CipherSuites[j].AEAD) == be16(b, cfgCsOff(b) + 4 + 4*j), trig(o.CipherSuites[j])) &&
+//@     int(o.MaximumNameLength) == int(b[cfgMnlOff(b)]) && bytesEq(o.PublicName, window(b, cfgPnOff(b), cfgPnLen(b)))
+// what ConfigSpec.Bytes must produce
+//@ pure cfgBodySize(c ConfigSpec) int = 5 + len(c.PublicKey) + 2 + 4*len(c.CipherSuites) + 2 + len(c.PublicName) + 2
+//@ pure cfgLayout(out []byte, c ConfigSpec) bool = len(out) == 4 + cfgBodySize(c) && be16(out, 0) == int(c.Version) && be16(out, 2) == cfgBodySize(c) &&
+//@     int(out[4]) == int(c.ID) && be16(out, 5) == int(c.KEM) && be16(out, 7) == len(c.PublicKey) && bytesEq(window(out, 9, len(c.PublicKey)), c.PublicKey) &&
+//@     be16(out, 9 + len(c.PublicKey)) == 4*len(c.CipherSuites) &&
+//@     forall(j, 0, len(c.CipherSuites), be16(out, 11 + len(c.PublicKey) + 4*j) == int(c.CipherSuites[j].KDF) && be16(out, 13 + len(c.PublicKey) + 4*j) == int(c.CipherSuites[j].AEAD), trig(c.CipherSuites[j])) &&
+//@     int(out[11 + len(c.PublicKey) + 4*len(c.CipherSuites)]) == min(len(c.PublicName) + 16, 255) &&
+//@     int(out[12 + len(c.PublicKey) + 4*len(c.CipherSuites)]) == len(c.PublicName) &&
+//@     bytesEq(window(out, 13 + len(c.PublicKey) + 4*len(c.CipherSuites), len(c.PublicName)), c.PublicName) &&
+//@     be16(out, 13 + len(c.PublicKey) + 4*len(c.CipherSuites) + len(c.PublicName)) == 0
+
 //@ func parseConfig returns (out, err)
 //@   requires s != nil
 //@   modifies *s
 //@   terminates
 //@   ensures[T:consumes] err == nil ==> len(*s) < old(len(*s))
 //@   ensures[F:within-input] sameArray(*s, old(*s)) && offset(*s) + len(*s) == old(offset(*s) + len(*s)) && len(*s) <= old(len(*s))
+//@   ensures[L:accepts] (err == nil) == cfgValid(old(*s))
+//@   ensures[L:fields] err == nil ==> cfgFields(out, old(*s))
+//@   ensures[L:advance] err == nil ==> offset(*s) == old(offset(*s)) + 4 + cfgBodyLen(old(*s)) && len(*s) == old(len(*s)) - 4 - cfgBodyLen(old(*s))
+//@   ensures[F:errclass] err != nil ==> alertCode(err) == 50
 //@   loop 1 "!cs.Empty()"
+//@     invariant[L:pos] sameArray(cs, entry(cs)) && offset(cs) == entry(offset(cs)) + 4*len(out.CipherSuites) && len(cs) == entry(len(cs)) - 4*len(out.CipherSuites)
+//@     invariant[L:suites] forall(j, 0, len(out.CipherSuites), int(out.CipherSuites[j].KDF) == be16(entry(cs), 4*j) && int(out.CipherSuites[j].AEAD) == be16(entry(cs), 4*j + 2))
 //@     decreases len(cs)
+
+// list layout: u16 total length, then the configs back to back. cfgsLen(cs, n) = total size of the first n configs;
+// pcOff(b, i) = offset of the i-th config inside the encoded list b (after the u16 prefix), read off the declared lengths.
+//@ purerec cfgsLen(cs []Config, n int) int = ite(n <= 0, 0, cfgsLen(cs, n-1) + len(cs[n-1]))
+//@ purerec pcOff(b []byte, i int) int = ite(i <= 0, 2, pcOff(b, i-1) + 4 + be16(b, pcOff(b, i-1) + 2))
+
+//@ func ConfigList returns (out, err)
+//@   terminates
+//@   ensures[L:layout] err == nil ==> len(out) == 2 + cfgsLen(configs, len(configs)) && be16(out, 0) == len(out) - 2 &&
+//@       forall(i, 0, len(configs), bytesEq(window(out, 2 + cfgsLen(configs, i), len(configs[i])), configs[i]))
+//@   ensures[F:succeeds] cfgsLen(configs, len(configs)) <= 65535 ==> err == nil
+//@   loop 1 "range configs"
+//@     invariant[L:len] len(bbuf(c)) == entry(len(bbuf(c))) + cfgsLen(configs, ri1) && cfgsLen(configs, ri1) >= 0
+//@     invariant[L:content] forall(i, 0, ri1, bytesEq(window(bbuf(c), entry(len(bbuf(c))) + cfgsLen(configs, i), len(configs[i])), configs[i]))
 
 //@ func ParseConfigList returns (list, err)
 //@   terminates
+//@   ensures[L:layout] err == nil ==> len(configList) >= 2 && len(configList) >= 2 + be16(configList, 0) && pcOff(configList, len(list)) == 2 + be16(configList, 0)
+//@   ensures[F:errclass] err != nil ==> alertCode(err) == 50
 //@   loop 1 "!ss.Empty()"
+//@     invariant[L:pos] sameArray(ss, configList) && offset(ss) == offset(configList) + pcOff(configList, len(list)) && offset(ss) + len(ss) == offset(configList) + 2 + be16(configList, 0) && pcOff(configList, len(list)) >= 2 && len(configList) >= 2 + be16(configList, 0)
 //@     decreases len(ss)
 
 //@ func Config.Spec returns (out, err)
 //@   terminates
+//@   ensures[L:accepts] (err == nil) == cfgValid(cfg)
+//@   ensures[L:fields] err == nil ==> cfgFields(out, cfg)
+
+//@ func ConfigSpec.Bytes returns (conf, err)
+//@   terminates
+//@   ensures[F:name-length] len(c.PublicName) == 0 || len(c.PublicName) > 255 ==> err != nil
+//@   ensures[L:layout] err == nil ==> cfgLayout(conf, c)
+//@   ensures[F:succeeds] 1 <= len(c.PublicName) && len(c.PublicName) <= 255 && cfgBodySize(c) <= 65535 ==> err == nil
+//@   loop 1 "range c.CipherSuites"
+//@     invariant[L:len] len(bbuf(b)) == entry(len(bbuf(b))) + 4*ri1
+//@     invariant[L:suites] forall(j, 0, ri1, be16(bbuf(b), entry(len(bbuf(b))) + 4*j) == int(c.CipherSuites[j].KDF) && be16(bbuf(b), entry(len(bbuf(b))) + 4*j + 2) == int(c.CipherSuites[j].AEAD))
+
+//@ func NewConfig returns (priv, conf, err)
+//@   ensures[F:name-length] len(publicName) == 0 || len(publicName) > 255 ==> err != nil
+//@   ensures[L:fields] err == nil ==> cfgValid(conf) && 4 + cfgBodyLen(conf) == len(conf) && int(conf[4]) == int(id) && be16(conf, 5) == 0x0020 && cfgCsLen(conf) == 12 &&
+//@       be16(conf, cfgCsOff(conf) + 2) == 1 && be16(conf, cfgCsOff(conf) + 4) == 3 && be16(conf, cfgCsOff(conf) + 6) == 1 && be16(conf, cfgCsOff(conf) + 8) == 2 &&
+//@       be16(conf, cfgCsOff(conf) + 10) == 1 && be16(conf, cfgCsOff(conf) + 12) == 1 &&
+//@       cfgPnLen(conf) == len(publicName) && bytesEq(window(conf, cfgPnOff(conf), cfgPnLen(conf)), publicName) && int(conf[cfgMnlOff(conf)]) == min(len(publicName) + 16, 255)
+
+// Round trip: whatever ConfigSpec.Bytes produces for a version 0xfe0d spec is accepted by parseConfig
+// and parses back to the same id, KEM, public key, cipher suites and public name (maximum_name_length derived from the name).
+//@ lemma C11roundtrip(out []byte, c ConfigSpec, o ConfigSpec) = cfgLayout(out, c) && int(c.Version) == 0xfe0d && 1 <= len(c.PublicName) && len(c.PublicName) <= 255 && cfgBodySize(c) <= 65535 ==>
+//@     cfgPkLen(out) == len(c.PublicKey) && cfgCsOff(out) == 9 + len(c.PublicKey) && cfgCsLen(out) == 4*len(c.CipherSuites) &&
+//@     cfgMnlOff(out) == 11 + len(c.PublicKey) + 4*len(c.CipherSuites) && cfgPnLen(out) == len(c.PublicName) &&
+//@     cfgValid(out) && 4 + cfgBodyLen(out) == len(out) &&
+//@     (cfgFields(o, out) ==> o.ID == c.ID && o.KEM == c.KEM && bytesEq(o.PublicKey, c.PublicKey) && len(o.CipherSuites) == len(c.CipherSuites) &&
+//@         forall(j, 0, len(c.CipherSuites), o.CipherSuites[j].KDF == c.CipherSuites[j].KDF && o.CipherSuites[j].AEAD == c.CipherSuites[j].AEAD) &&
+//@         bytesEq(o.PublicName, c.PublicName) && int(o.MaximumNameLength) == min(len(c.PublicName) + 16, 255))
+// Truncation: no proper prefix of a valid encoding is accepted.
+//@ lemma C11truncation(b []byte, t int) = cfgValid(b) && 0 <= t && t < 4 + cfgBodyLen(b) ==> !cfgValid(window(b, 0, t))
 
 // ---------------------------------------------------------------------------
 // shared vocabulary
